@@ -78,6 +78,38 @@ def replay(case) -> dict:
             want_im = blocksum(imgs[int(key)])
             if got_im.shape != want_im.shape or np.max(np.abs(got_im - want_im)) > 1e-3 * max(1.0, float(np.abs(want_im).max())):
                 failures.append(dict(desc, clause="BinnedImageIsBlockSum", image=str(key)))
+    # binning composes (Binning.tla, ChainLaw): binning(b1).binning(b2) is binning(b1 b2) - image, scale and positions - and
+    # binning one loader never changes what ANOTHER loader derived from the same parent returns afterwards
+    def images_of(ld):
+        return [(0, ld.image)] if cfg["kind"] == "single" else list(ld.images.items())
+
+    for b1, b2 in ((2, 2), (2, 3), (3, 2)):
+        if b != b1 * b2:
+            continue
+        chain = engine.api(lambda: parent.binning(b1, compute=cfg["compute"]).binning(b2, compute=cfg["compute"]))
+        if abs(chain.scale - binned.scale) > 1e-9 or np.max(np.abs(np.asarray(chain.molecules.pos) - np.asarray(binned.molecules.pos))) > 1e-4:
+            failures.append(dict(desc, clause="BinningComposes", what="scale_or_positions", chain=[b1, b2]))
+        for (k1, im1), (k2, im2) in zip(images_of(chain), images_of(binned)):
+            a1, a2 = np.asarray(im1, dtype=np.float64), np.asarray(im2, dtype=np.float64)
+            if a1.shape != a2.shape or np.max(np.abs(a1 - a2)) > 1e-3 * max(1.0, float(np.abs(a2).max())):
+                failures.append(dict(desc, clause="BinningComposes", what="image", chain=[b1, b2], image=str(k1)))
+        again = engine.api(parent.binning, b, compute=cfg["compute"])      # after the chain: the parent bins as before
+        for (k1, im1), (k2, im2) in zip(images_of(again), images_of(binned)):
+            a1, a2 = np.asarray(im1, dtype=np.float64), np.asarray(im2, dtype=np.float64)
+            if a1.shape != a2.shape or np.max(np.abs(a1 - a2)) > 1e-3 * max(1.0, float(np.abs(a2).max())):
+                failures.append(dict(desc, clause="BinningIndependentOfEarlierBinnings", image=str(k1)))
+    if cfg["kind"] == "batch" and b > 1:
+        # rows keep their order: a batch whose molecules of different tomograms are interleaved (first, second, first)
+        m3 = Molecules(np.array([[1.0, 1.0, 1.0], [2.0, 2.0, 2.0], [1.0, 2.0, 1.0]]) * scale)
+        inter = BatchLoader(order=cfg["order"], scale=scale, output_shape=s)
+        inter.add_tomogram(wrap(imgs[0]), m3.subset([0, 2]))
+        inter.add_tomogram(wrap(imgs[1]), m3.subset([1]))
+        inter = inter.replace(molecules=inter.molecules.subset([0, 2, 1]))
+        ids0 = inter.molecules.features["image-id"].to_list()
+        bi = engine.api(inter.binning, b, compute=cfg["compute"])
+        tr = (b - 1) / 2 * scale
+        if bi.molecules.features["image-id"].to_list() != ids0 or np.max(np.abs(np.asarray(bi.molecules.pos) - (np.asarray(inter.molecules.pos) - tr))) > 1e-4:
+            failures.append(dict(desc, clause="RowsKeepTheirOrder", observed=bi.molecules.features["image-id"].to_list(), expected=ids0))
     if failures:
         return dict(failures=failures)
     idx = 0 if cfg["kind"] == "single" else 1
